@@ -197,7 +197,7 @@ class DetectionsFromDict(Contract):
     from its definition with the rule's source; a missing condition is a SigmaConditionError"""
     id = "C06.SigmaDetections.from_dict"
     target = f"{DET}:SigmaDetections.from_dict"
-    props = ("C06", "C07")
+    props = ("C06", "C07", "C11")
     cases = ("scalar", "list", "missing")
 
     def setup(self, E):
@@ -232,6 +232,7 @@ class DetectionsFromDict(Contract):
         cd = I.force(k.get("condition")) if not isinstance(k.get("condition"), list) else k.get("condition")
         want = [inp["c"][0]] if case == "scalar" else list(inp["c"])
         c.require(isinstance(cd, list) and len(cd) == len(want) and all(a is b for a, b in zip(cd, want)), "condition: always a list of the texts")
+        c.require(cd is not inp["d"].get("condition"), "the rule owns its list of conditions (filters rewrite it in place; the parsed document may be shared by a repeated rule or loaded again)")
         dets = I.force(k.get("detections")) if not isinstance(k.get("detections"), dict) else k.get("detections")
         c.require(isinstance(dets, dict) and list(dets) == ["sel", "flt"] and dets["sel"].fields["of"] is inp["defs"][0] and dets["flt"].fields["of"] is inp["defs"][1], "every other key is a detection parsed from its own definition, in order")
         c.require(all(len(a) == 2 and a[1] is inp["src"] for a in I.E._c06b) and k.get("source") is inp["src"], "the source location is passed on")
